@@ -1,0 +1,42 @@
+//go:build verif
+
+// Export shim for the external verification harness (/verif, property C17 part B: storage-key
+// injectivity). Compiled only with the build tag `verif`. Thin wrappers that make the unexported
+// put/get storage helpers reachable as black-box key constructors; no contract logic lives here.
+
+package node_manager
+
+import (
+	"github.com/polynetwork/poly/common"
+	"github.com/polynetwork/poly/native"
+)
+
+func VerifPutPeerApply(native *native.NativeService, peer *RegisterPeerParam) error {
+	return putPeerApply(native, peer)
+}
+
+func VerifPutPeerPoolMap(native *native.NativeService, peerPoolMap *PeerPoolMap, view uint32) {
+	putPeerPoolMap(native, peerPoolMap, view)
+}
+
+func VerifPutConfig(native *native.NativeService, config *Configuration) { putConfig(native, config) }
+
+func VerifPutCandidateIndex(native *native.NativeService, index uint32) {
+	putCandidateIndex(native, index)
+}
+
+func VerifGetCandidateIndex(native *native.NativeService) (uint32, error) {
+	return getCandidateIndex(native)
+}
+
+func VerifPutGovernanceView(native *native.NativeService, view *GovernanceView) {
+	putGovernanceView(native, view)
+}
+
+func VerifPutConsensusSigns(native *native.NativeService, key common.Uint256, signs *ConsensusSigns) {
+	putConsensusSigns(native, key, signs)
+}
+
+func VerifGetConsensusSigns(native *native.NativeService, key common.Uint256) (*ConsensusSigns, error) {
+	return getConsensusSigns(native, key)
+}
